@@ -7,13 +7,17 @@ from sympy import Matrix, eye
 from contracts import spec_quantum as S
 
 
-def zx_box(box):
+def zx_box(box, symmetric=False):
+    """symmetric=True: the spider e^{-i pi a}|0..0><0..0| + e^{i pi a}|1..1><1..1| (the standard one times
+    the global phase e^{-i pi a}); used only for the gradient rule, which is a derivative in that convention"""
     from discopy.quantum import zx
     n_in, n_out = len(box.dom), len(box.cod)
     if isinstance(box, zx.Z):
-        return S.z_spider(n_in, n_out, box.phase)
+        M = S.z_spider(n_in, n_out, box.phase)
+        return M * sympy.exp(-sympy.I * sympy.pi * box.phase) if symmetric else M
     if isinstance(box, zx.X):
-        return S.x_spider(n_in, n_out, box.phase)
+        M = S.x_spider(n_in, n_out, box.phase)
+        return M * sympy.exp(-sympy.I * sympy.pi * box.phase) if symmetric else M
     if isinstance(box, zx.Had):
         return S.H
     if isinstance(box, zx.Swap):
@@ -34,8 +38,8 @@ def layered(diagram, box_matrix):
     return M
 
 
-def zx_matrix(diagram):
-    return layered(diagram, zx_box)
+def zx_matrix(diagram, symmetric=False):
+    return layered(diagram, lambda b: zx_box(b, symmetric))
 
 
 def mat_list(M):
